@@ -1023,9 +1023,15 @@ def wl_standard(run, rng, idx):
             par = float(np.exp(rng.uniform(math.log(1 / 20), math.log(20))))
         else:
             par = float(rng.choice([1 / 20, 20.0, 1.0, -3.0, 1 + 1e-9, 300.0]))
-        case.update(parameter=par)
+        par_arg = par
+        if kind == "loxodromic-extreme" and idx % 3 == 0:
+            # integer-typed translation parameters (seeded change C02-3: 1/parameter
+            # truncated in an integer array)
+            par = float(rng.integers(2, 9))
+            par_arg = [int(par), np.int64(par), np.array(int(par))][(idx // 3) % 3]
+        case.update(parameter=par, parameter_type=type(par_arg).__name__)
         run.current_case = case
-        T = Isometry.standard_loxodromic(n, par)
+        T = Isometry.standard_loxodromic(n, par_arg)
     elif kind in ("elliptic", "elliptic-rows"):
         B = ri.rand_orth_det(rng, n, float(rng.choice([-1.0, 1.0])))
         case.update(block=B)
